@@ -7,6 +7,7 @@ import (
 	"go/token"
 	"os"
 	"path/filepath"
+	"regexp"
 	"strings"
 	"sync"
 
@@ -253,6 +254,8 @@ func classifyCompileError(tgt, msg string) string {
 		return tgt + ":date-helpers-missing"
 	case strings.Contains(msg, "declared and not used: item"):
 		return tgt + ":table-without-columns"
+	case regexp.MustCompile(`undefined: \w+\.\w+ArrayToPQ`).MatchString(msg):
+		return tgt + ":id-type-of-another-package"
 	case strings.Contains(msg, "Kind redeclared"):
 		return tgt + ":kind-constant-redeclared"
 	case strings.Contains(msg, "redeclared"):
@@ -278,6 +281,7 @@ func corpusGoGen() []*modSpec {
 		mk("go-imported-package-named-like-own", "package models\n\nimport shared \"example.com/org/models/shared/models\"\n\ntype IdOrder int64\n\ntype Order struct {\n\tId IdOrder\n\tStatus shared.Status\n\tCurrency shared.Currency\n\tHistory shared.Statuses\n}\n",
 			modFile{"shared/models/models.go", "package models\n\ntype Status int\n\nconst (\n\tPending Status = iota + 1\n\tPaid\n\tShipped\n)\n\ntype Statuses []Status\n\ntype Currency string\n\nconst (\n\tEUR Currency = \"EUR\"\n\tUSD Currency = \"USD\"\n)\n"}),
 		mk("go-unions-sharing-their-first-letter", "package models\n\ntype Shape interface{ isShape() }\ntype Style interface{ isStyle() }\ntype Circle struct{ R int }\ntype Square struct{ S int }\ntype Bold struct{ W int }\n\nfunc (Circle) isShape() {}\nfunc (Square) isShape() {}\nfunc (Circle) isStyle() {}\nfunc (Bold) isStyle() {}\n\ntype Drawing struct {\n\tShape Shape\n\tStyle Style\n}\n"),
+		mk("go-id-type-of-another-package", "package models\n\nimport \"example.com/org/models/sub\"\n\ntype IdOrder int64\n\ntype Order struct {\n\tId IdOrder\n\tCustomer sub.SubID\n\tNote string\n}\n", modFile{"sub/sub.go", "package sub\n\ntype SubID int64\n"}),
 		mk("go-id-upper", "package models\n\ntype IdT int64\n\ntype T struct {\n\tID IdT\n\tName string\n}\n\ntype Link struct {\n\tIdT IdT\n\tV int\n}\n"),
 		mk("go-tables-basic", "package models\n\ntype IdA int64\ntype IdB int64\n\n// gomacro:SQL ADD UNIQUE(Name)\ntype A struct {\n\tId IdA\n\tName string\n\tN int\n}\n\ntype B struct {\n\tId IdB\n\tIdA IdA `gomacro-sql-on-delete:\"CASCADE\"`\n\tOpt OptA\n\tTags []string\n\tFlags [3]bool\n}\n\ntype OptA struct {\n\tValid bool\n\tId IdA\n}\n\n// gomacro:SQL ADD UNIQUE(IdA, IdB)\ntype LinkAB struct {\n\tIdA IdA\n\tIdB IdB\n}\n"),
 		mk("go-unions-shared-prefix", "package models\n\ntype Shape1 interface{ is1() }\ntype Shape2 interface{ is2() }\n\ntype A struct{ X int }\n\nfunc (A) is1() {}\nfunc (A) is2() {}\n\ntype S struct {\n\tV1 Shape1\n\tV2 Shape2\n}\n"),
